@@ -950,6 +950,182 @@ def dissolve_field_helper_classes(tree, foreign_text=''):
         done.append(K.name)
     return done
 
+def inline_keyword_forwarders(tree):
+    """A method ``def m(self, p.., **kw): return <expr>`` of a class, in which ``kw`` occurs only as ``**kw`` of calls, is a
+    forwarder: every call ``self.m(a.., k=v..)`` (no star arguments, the parameters given by position) is replaced by
+    <expr> with the arguments for the parameters and the keywords written out.  Repeated until nothing changes (a
+    forwarder may call a forwarder).  -> ['C.m', ...]"""
+    done = []
+    for C in [c for c in tree.body if isinstance(c, ast.ClassDef)]:
+        fw = {}
+        for m in C.body:
+            if not isinstance(m, ast.FunctionDef) or m.decorator_list or m.args.kwarg is None or m.args.vararg or \
+                    m.args.kwonlyargs or m.args.defaults or not m.args.args:
+                continue
+            body = [st for st in m.body if not (isinstance(st, ast.Expr) and isinstance(st.value, ast.Constant))]
+            if len(body) != 1 or not isinstance(body[0], ast.Return) or body[0].value is None:
+                continue
+            kw = m.args.kwarg.arg
+            e = body[0].value
+            uses = [x for x in ast.walk(e) if isinstance(x, ast.Name) and x.id == kw]
+            stars = [k.value for c in ast.walk(e) if isinstance(c, ast.Call) for k in c.keywords if k.arg is None]
+            if not uses or any(u not in stars for u in uses):
+                continue
+            params = [a.arg for a in m.args.args]
+            if any(sum(1 for x in ast.walk(e) if isinstance(x, ast.Name) and x.id == p_) > 1 for p_ in params[1:]):
+                continue            # an argument expression would be evaluated twice
+            fw[m.name] = (params, kw, e)
+        if not fw:
+            continue
+        for _ in range(4):
+            changed = [False]
+
+            class Sub(ast.NodeTransformer):
+                def visit_Call(self, node):
+                    self.generic_visit(node)
+                    f = node.func
+                    if isinstance(f, ast.Attribute) and isinstance(f.value, ast.Name) and f.value.id == 'self' and f.attr in fw and \
+                            all(k.arg is not None for k in node.keywords) and not any(isinstance(a, ast.Starred) for a in node.args):
+                        params, kw, e = fw[f.attr]
+                        if len(node.args) != len(params) - 1:
+                            return node
+                        amap = dict(zip(params[1:], node.args))
+                        amap[params[0]] = ast.Name(id='self', ctx=ast.Load())
+                        kws = node.keywords
+
+                        class Put(ast.NodeTransformer):
+                            def visit_Name(self, n):
+                                if n.id in amap and isinstance(n.ctx, ast.Load):
+                                    return ast.copy_location(_clone(amap[n.id]), n)
+                                return n
+
+                            def visit_Call(self, c):
+                                self.generic_visit(c)
+                                new_kw = []
+                                for k in c.keywords:
+                                    if k.arg is None and isinstance(k.value, ast.Name) and k.value.id == kw:
+                                        new_kw.extend(ast.keyword(arg=q.arg, value=_clone(q.value)) for q in kws)
+                                    else:
+                                        new_kw.append(k)
+                                c.keywords = new_kw
+                                return c
+                        out = Put().visit(_clone(e))
+                        ast.copy_location(out, node)
+                        for x in ast.walk(out):
+                            if not hasattr(x, 'lineno') and isinstance(x, (ast.expr, ast.keyword)):
+                                ast.copy_location(x, node)
+                        ast.fix_missing_locations(out)
+                        changed[0] = True
+                        if '%s.%s' % (C.name, f.attr) not in done:
+                            done.append('%s.%s' % (C.name, f.attr))
+                        return out
+                    return node
+            for m in C.body:
+                if isinstance(m, ast.FunctionDef) and m.name not in fw:
+                    Sub().visit(m)
+            # forwarders that call forwarders
+            for name, (params, kw, e) in list(fw.items()):
+                e2 = Sub().visit(_clone(e))
+                fw[name] = (params, kw, e2)
+            if not changed[0]:
+                break
+    if done:
+        set_parents(tree)
+    return done
+
+
+def format_calls_to_fstrings(tree):
+    """``T.format(a.., k=v..)`` where T is a string literal, a module-level name bound once to a string literal, or
+    ``D['key']`` with D a module-level dict display of string literals, becomes the f-string that it abbreviates
+    (plain ``{}``, ``{0}``, ``{name}`` fields with an optional !s / !r conversion and no format spec; every argument used
+    exactly once, so nothing is evaluated twice or dropped).  -> number of calls rewritten"""
+    import string
+    consts, tables = {}, {}
+    counts = {}
+    for st in tree.body:
+        if isinstance(st, ast.Assign) and len(st.targets) == 1 and isinstance(st.targets[0], ast.Name):
+            counts[st.targets[0].id] = counts.get(st.targets[0].id, 0) + 1
+            if isinstance(st.value, ast.Constant) and isinstance(st.value.value, str):
+                consts[st.targets[0].id] = st.value.value
+            elif isinstance(st.value, ast.Dict) and st.value.keys and all(
+                    isinstance(k, ast.Constant) and isinstance(v, ast.Constant) and isinstance(v.value, str) for k, v in zip(st.value.keys, st.value.values)):
+                tables[st.targets[0].id] = {k.value: v.value for k, v in zip(st.value.keys, st.value.values)}
+    stored = {x.id for x in ast.walk(tree) if isinstance(x, ast.Name) and isinstance(x.ctx, (ast.Store, ast.Del))}
+    mutated = {x.value.id for x in ast.walk(tree) if isinstance(x, ast.Subscript) and isinstance(x.ctx, (ast.Store, ast.Del)) and isinstance(x.value, ast.Name)}
+    mutated |= {x.func.value.id for x in ast.walk(tree) if isinstance(x, ast.Call) and isinstance(x.func, ast.Attribute) and
+                isinstance(x.func.value, ast.Name) and x.func.attr in ('update', 'pop', 'clear', 'setdefault', 'popitem')}
+    consts = {k: v for k, v in consts.items() if counts.get(k) == 1}
+    tables = {k: v for k, v in tables.items() if counts.get(k) == 1 and k not in mutated}
+    n = [0]
+
+    def template(e):
+        if isinstance(e, ast.Constant) and isinstance(e.value, str):
+            return e.value
+        if isinstance(e, ast.Name) and e.id in consts:
+            return consts[e.id]
+        if isinstance(e, ast.Subscript) and isinstance(e.value, ast.Name) and e.value.id in tables and isinstance(e.slice, ast.Constant):
+            return tables[e.value.id].get(e.slice.value)
+        return None
+
+    class Sub(ast.NodeTransformer):
+        def visit_Call(self, node):
+            self.generic_visit(node)
+            f = node.func
+            if not (isinstance(f, ast.Attribute) and f.attr == 'format'):
+                return node
+            t = template(f.value)
+            if t is None or any(isinstance(a, ast.Starred) for a in node.args) or any(k.arg is None for k in node.keywords):
+                return node
+            try:
+                parts = list(string.Formatter().parse(t))
+            except ValueError:
+                return node
+            kws = {k.arg: k.value for k in node.keywords}
+            used = []
+            vals = []
+            auto = 0
+            for lit, field, spec, conv in parts:
+                if lit:
+                    vals.append(ast.Constant(value=lit))
+                if field is None:
+                    continue
+                if spec or conv not in (None, 's', 'r'):
+                    return node
+                if field == '':
+                    key = auto
+                    auto += 1
+                elif field.isdigit():
+                    key = int(field)
+                elif field.isidentifier():
+                    key = field
+                else:
+                    return node
+                if isinstance(key, int):
+                    if key >= len(node.args):
+                        return node
+                    v = node.args[key]
+                else:
+                    if key not in kws:
+                        return node
+                    v = kws[key]
+                used.append(key)
+                vals.append(ast.FormattedValue(value=v, conversion={None: -1, 's': 115, 'r': 114}[conv], format_spec=None))
+            if sorted(map(str, used)) != sorted(map(str, list(range(len(node.args))) + list(kws))):
+                return node         # an argument is used twice or not at all
+            n[0] += 1
+            out = ast.JoinedStr(values=vals) if vals else ast.Constant(value='')
+            ast.copy_location(out, node)
+            for x in ast.walk(out):
+                if not hasattr(x, 'lineno'):
+                    ast.copy_location(x, node)
+            ast.fix_missing_locations(out)
+            return out
+    Sub().visit(tree)
+    if n[0]:
+        set_parents(tree)
+    return n[0]
+
+
 def inline_simple_properties(tree):
     """A read-only property with a private name that no other class of the module uses, whose body is one ``return`` of an
     expression over ``self``, is replaced at every read ``Y._p`` (Y a name or attribute chain) by that expression with Y
@@ -1466,6 +1642,8 @@ class Module:
         self.dataclasses = synthesise_dataclass_constructors(self.tree)
         self.conditionals = desugar_conditional_statements(self.tree)
         self.inlined_properties = inline_simple_properties(self.tree)
+        self.keyword_forwarders = inline_keyword_forwarders(self.tree)
+        self.format_calls = format_calls_to_fstrings(self.tree)
         self.flattened = flatten_single_use_bases(self.tree, repo.foreign_text(name))
         self.specialised = specialise_template_methods(self.tree)
         self.dissolved = dissolve_field_helper_classes(self.tree, repo.foreign_text(name)) + \
